@@ -140,7 +140,8 @@ CLAIMS = {
               "memberships, expressions, and / or / not, nested queries -: the parents are filtered, every surviving parent is unnested in full, "
               "in order), C16_unnest_where_filtered (a parent condition and an element condition together) and C16_unnest_item_disjunction (an "
               "item / attribute of the element selected under a disjunction over items of the element: one row per qualifying element, two "
-              "elements of one parent are two rows). Tie: generated flatten queries (all selections, conditions on "
+              "elements of one parent are two rows) and C16_unnest_parent_disjunction (the same with the parent alone selected: a parent that "
+              "qualifies through a later element only is still delivered). Tie: generated flatten queries (all selections, conditions on "
               "element / parent / both / disjunction / membership) compared as exact row sequences with the model, cache off and on."),
         design='7/C16', technique='Coq proof (direct structural induction over parent domain and inner collection) + correspondence',
         note=BASE_NOTE + " Conditions that relate the element to its parent, other disjunctions over the element and membership of the element are covered by correspondence only; the value subset has one level of nesting (a tuple of ints as an element of a collection) and mappings (as collections: their keys)."),
